@@ -134,13 +134,15 @@ def _call_cases(tier, rng):
             continue
         k = rng.randrange(len(calls))
         yield {"dag": d, "output": out, "fail": calls[k], "exc": rng.choice(sorted(progs.EXC_FACTORIES)),
-               "second": rng.random() < 0.4}
+               "second": rng.random() < 0.4,
+               # some root arguments are objects with identity that cannot be copied (a lock inside), not plain values
+               "handles": sorted(r for r in dag.ROOTS if rng.random() < 0.25)}
 
 
 def _check_call(case):
     d, out = case["dag"], case["output"]
     p = dag.build(d)
-    kw_all = {r: f"v_{r}" for r in dag.ROOTS}
+    kw_all = {r: (progs.Handle(r) if r in case.get("handles", ()) else f"v_{r}") for r in dag.ROOTS}
     need = dag.needed_roots(d, out, set())
     kw = {k: v for k, v in kw_all.items() if k in need}
     want, vals, calls = dag.refeval(d, out, kw)
@@ -224,6 +226,8 @@ def _reproduce(snap, kind, where):
     progs.set_fail({"func": snap.function.__name__, "call": None, "exc": progs.EXC_FACTORIES[kind]})
     try:
         for label, s in (("", snap), ("after save/load ", None)):
+            if s is None and any(isinstance(v, progs.Handle) for v in list(snap.kwargs.values()) + list(snap.args)):
+                continue  # (a snapshot can only be written to a file when the arguments can be pickled)
             if s is None:
                 fd, path = tempfile.mkstemp(prefix="vf_c13_", suffix=".pkl")
                 os.close(fd)
